@@ -135,6 +135,21 @@ where
         }
     }
 
+    // greater VS less_or_equal, greater_or_equal VS less:
+    // with one exclusive side equal bounds leave no valid value either
+    for (maybe_lower, maybe_upper) in [
+        (maybe_greater.clone(), maybe_less_or_equal.clone()),
+        (maybe_greater_or_equal.clone(), maybe_less.clone()),
+    ] {
+        if let (Some(lower), Some(upper)) = (maybe_lower, maybe_upper) {
+            if lower.item >= upper.item {
+                let msg = "The lower bound cannot be equal or higher than the upper bound when one of them is exclusive (`greater` or `less`).";
+                let err = syn::Error::new(upper.span(), msg);
+                return Err(err);
+            }
+        }
+    }
+
     let maybe_lower_bound = maybe_greater.or(maybe_greater_or_equal);
     let maybe_upper_bound = maybe_less.or(maybe_less_or_equal);
 
